@@ -57,6 +57,19 @@ def gen_cases(ctx):
                 else:
                     t["coef"] = [float2bits(rng.uniform(-3, 3)), float2bits(rng.choice([1e-16, -1e-17, 5e-324, 1e-300, 0.25, -2.0, 2.2e-16]))]
                 mk("neg_i_dt", n, t, dt=float2bits(rng.choice([rng.uniform(-2, 2), rng.uniform(-2, 2), 0.0, 1e-9, 7.5, 1e15])))
+    # the empty string is the scalar e^alpha for EVERY alpha: every coefficient kind (purely imaginary and pi multiples included)
+    # through every entry point
+    for n in (1, 2, 3):
+        for k in sorted(set(KINDS_Q)):
+            if k == "huge": continue
+            mk("exp", n, {"ops": [], "coef": coef_for_exp(rng, k)})
+            for fk in ("real", "imag", "generic"):
+                c = coef_for_exp(rng, k); f = coef_for_exp(rng, fk)
+                if cabs(c) * cabs(f) > 25: f = coef_for_exp(rng, "tiny")
+                mk("exp_factor", n, {"ops": [], "coef": c}, factor=f)
+        for c in (0.7, -1.3, 2.5):
+            mk("exp_factor", n, {"ops": [], "coef": [float2bits(c), float2bits(0.0)]}, factor=[float2bits(0.0), float2bits(rng.uniform(-2, 2))])
+            mk("neg_i_dt", n, {"ops": [], "coef": [float2bits(c), float2bits(0.0)]}, dt=float2bits(rng.choice([0.3, -1.1, 2.0])))
     # out-of-range factors
     for n in (1, 2, 3):
         t = rand_string(rng, n, allow_empty=False); t["ops"][0][0] = n + rng.randrange(0, 3); t["coef"] = coef_for_exp(rng, "generic")
